@@ -10,7 +10,7 @@
     Graphs: node ids pairwise distinct ([NoDup (node_ids g)], guaranteed by networkx); adjacency is symmetric by
     construction ([LGraph.adj]). *)
 From Coq Require Import List NArith ZArith Bool Arith Permutation Sorted.
-From SK Require Import lib.LGraph model.C12_Model model.C12_Trace model.C12_Check model.C12_State proof.C12_Search proof.C12_Proof proof.C12_Prune proof.C12_Enum proof.C12_Sorted proof.C12_Component proof.C12_Mol proof.C12_State proof.C12_Trace proof.C12_LastSize proof.C12_StateRaw proof.C12_Check.
+From SK Require Import lib.LGraph model.C12_Model model.C12_Trace model.C12_Check model.C12_State proof.C12_Search proof.C12_Proof proof.C12_Prune proof.C12_Enum proof.C12_Sorted proof.C12_Component proof.C12_Mol proof.C12_State proof.C12_Trace proof.C12_LastSize proof.C12_StateRaw proof.C12_Check proof.C12_MtgRaw.
 Import ListNotations.
 
 (** ** 0. the specification: a common induced sub-graph mapping, written out.
@@ -702,3 +702,58 @@ Theorem C12_facade_mcs_mol :
   m_step cfg st (MRcMol x sd choice) = m_step cfg st (MFindMol ga gb choice).
 Proof. exact rc_mol_is_find_mol. Qed.
 Print Assumptions C12_facade_mcs_mol.
+
+(** ** 23. (round 5) the MTG copy on the caller's graphs.  [raw_common_induced_mtg cfg k ga gb m] (written out in the first
+    theorem; k = the edge attribute): as for the Matcher copy, but a bond matches only when BOTH values of the edge attribute exist
+    and are float()-equal (a missing or non-castable value matches nothing).  For an object built by the MTG constructor (zip
+    truncation of names / defaults), after any history: stored mappings are valid for (G1, G2) in that sense; maximum mode: all
+    of size last_size, no valid mapping larger; all-sizes mode: every non-empty valid mapping returned. *)
+Theorem C12_mtg_raw_meaning :
+  forall (cfg : config) (k : N) (ga gb : rgraph) (m : mapping),
+  length (c_defs cfg) = length (c_names cfg) -> c_enames cfg = [k] ->
+  (common_induced (node_match (c_defs cfg)) edge_match_mtg (project_mtg cfg ga) (project_mtg cfg gb) m <->
+   NoDup (map fst m) /\ NoDup (map snd m) /\
+   (forall p h, In (p, h) m ->
+      exists a b, label ga p = Some a /\ label gb h = Some b /\ node_match_raw (c_names cfg) (c_defs cfg) b a = true) /\
+   (forall p h p' h', In (p, h) m -> In (p', h') m -> p <> p' ->
+      match LGraph.adj ga p p', LGraph.adj gb h h' with
+      | Some b, Some b' => edge_match_mtg_raw k b' b = true
+      | None, None => True
+      | _, _ => False
+      end)).
+Proof. exact project_mtg_ci_iff. Qed.
+Print Assumptions C12_mtg_raw_meaning.
+
+Theorem C12_mtg_history_valid_raw :
+  forall (a : mtg_args) (st : tstate) (ops : list top) (g1 g2 : rgraph) (mcs : bool) (rds : list top),
+  NoDup (node_ids g1) -> NoDup (node_ids g2) -> forallb t_is_read rds = true ->
+  let cfg := mk_config_mtg a in
+  let stf := t_run cfg st (ops ++ TFind g1 g2 mcs :: rds) in
+  (forall m, In m (t_maps stf) -> raw_common_induced_mtg cfg (ma_edge a) g1 g2 m /\ 1 <= length m) /\
+  (mcs = true -> (forall m, In m (t_maps stf) -> length m = t_last stf) /\
+                 (forall m, raw_common_induced_mtg cfg (ma_edge a) g1 g2 m -> length m <= t_last stf)) /\
+  (mcs = false -> forall m, raw_common_induced_mtg cfg (ma_edge a) g1 g2 m -> 1 <= length m ->
+                  exists m', In m' (t_maps stf) /\ Permutation m m').
+Proof. exact mtg_history_valid_raw. Qed.
+Print Assumptions C12_mtg_history_valid_raw.
+
+(** ** 24. (wave 4) the keyword arguments of the two search entry points as the caller wrote them ([mcall], None = omitted; the
+    correspondence encodes every search step of a history this way: [HCallKw] -> [resolve] -> [m_step]): every omitted argument
+    takes ITS OWN default whatever else was given -- find_common_subgraph: mcs False, mcs_mol False; find_rc_mapping: side "op",
+    mcs True, mcs_mol False, component True -- and the bodies dispatch in their own order: mcs_mol makes find_common_subgraph
+    ignore mcs, component mode makes find_rc_mapping ignore mcs_mol. *)
+Theorem C12_keyword_defaults :
+  forall auto : bool,
+  (forall g1 g2 chs ch, resolve auto (CFind g1 g2 {| fk_mcs := None; fk_mol := None |} chs ch) =
+                        if auto then MFindAuto g1 g2 false chs else MFind g1 g2 false) /\
+  (forall g1 g2 m chs ch, resolve auto (CFind g1 g2 {| fk_mcs := m; fk_mol := Some true |} chs ch) = MFindMol g1 g2 ch) /\
+  (forall g1 g2 b chs ch, resolve false (CFind g1 g2 {| fk_mcs := Some b; fk_mol := None |} chs ch) = MFind g1 g2 b) /\
+  (forall x ch, resolve auto (CRc x {| rk_side := None; rk_mcs := None; rk_mol := None; rk_component := None |} ch) = MRc x SOp true true) /\
+  (forall x sd m ml ch, resolve auto (CRc x {| rk_side := sd; rk_mcs := m; rk_mol := ml; rk_component := None |} ch) =
+                        MRc x (dflt SOp sd) (dflt true m) true) /\
+  (forall x sd m ch, resolve auto (CRc x {| rk_side := sd; rk_mcs := m; rk_mol := None; rk_component := Some false |} ch) =
+                     MRc x (dflt SOp sd) (dflt true m) false) /\
+  (forall x sd m ch, resolve auto (CRc x {| rk_side := sd; rk_mcs := m; rk_mol := Some true; rk_component := Some false |} ch) =
+                     MRcMol x (dflt SOp sd) ch).
+Proof. exact resolve_defaults. Qed.
+Print Assumptions C12_keyword_defaults.
